@@ -148,8 +148,36 @@ def elementary(ctx, rule, name, params):
     body = [s for s in fn.body if not _doc(s)]
     # `if sy is None: sy = sx` re-binds a None parameter
     out = walk(body, facts, alg, ctx.m, rule, "Matrix.%s" % name)
-    if out.kind != "return" or not isinstance(out.node, ast.Call):
+
+    def of_call(call):
+        cn = call_name(call)
+        if cn == "cls" or cn == "Matrix":
+            vals = [alg.ev(a) for a in call.args]
+            if len(vals) != 6:
+                raise AnalysisError(rule, "Matrix.%s: constructor call without six components" % name)
+            posmap, _, _ = ctor_fields(ctx, rule)
+            byfield = dict(zip(posmap, vals))
+            return [byfield[k] for k in F6]
+        if cn and (cn.startswith("cls.") or cn.startswith("Matrix.")):
+            return elementary(ctx, rule, cn.split(".")[1], [alg.ev(a) for a in call.args])
+        raise AnalysisError(rule, "Matrix.%s: returns %s" % (name, ast.unparse(call)))
+
+    def of_expr(node):
+        if isinstance(node, ast.Call):
+            return of_call(node)
+        if isinstance(node, ast.BinOp) and isinstance(node.op, (ast.Mult, ast.MatMult)):
+            # a product of elementary matrices: "left, then right" (the row-vector convention p * (A * B) = (p * A) * B that R04.5
+            # establishes for Matrix.__mul__ separately)
+            A, B = of_expr(node.left), of_expr(node.right)
+            a1, b1, c1, d1, e1, f1 = A
+            a2, b2, c2, d2, e2, f2 = B
+            return [a1 * a2 + b1 * c2, a1 * b2 + b1 * d2, c1 * a2 + d1 * c2, c1 * b2 + d1 * d2, e1 * a2 + f1 * c2 + e2, e1 * b2 + f1 * d2 + f2]
         raise AnalysisError(rule, "Matrix.%s: no constructor call returned" % name)
+
+    if out.kind != "return" or out.node is None:
+        raise AnalysisError(rule, "Matrix.%s: no constructor call returned" % name)
+    if not isinstance(out.node, ast.Call):
+        return of_expr(out.node)
     call = out.node
     cn = call_name(call)
     if cn == "cls" or cn == "Matrix":
